@@ -95,7 +95,7 @@ func (mk *mapKey) LocateParams(typeToValue TypeToValue) (*Params, error) {
 	var argType reflect.Type
 	var vals []any
 	if m, ok := typeToValue[mk.mapType]; ok {
-		v := m.MapIndex(reflect.ValueOf(mk.name))
+		v := m.MapIndex(mk.key())
 		if v.Kind() == reflect.Invalid {
 			return nil, fmt.Errorf("map %q does not contain key %q", mk.mapType.Name(), mk.name)
 		}
@@ -120,7 +120,7 @@ func (mk *mapKey) LocateParams(typeToValue TypeToValue) (*Params, error) {
 			if m.IsNil() {
 				return nil, fmt.Errorf("got nil map in slice of %q at index %d", m.Type().Name(), i)
 			}
-			v := m.MapIndex(reflect.ValueOf(mk.name))
+			v := m.MapIndex(mk.key())
 			if v.Kind() == reflect.Invalid {
 				return nil, fmt.Errorf("map %q does not contain key %q", mk.mapType.Name(), mk.name)
 			}
@@ -154,7 +154,13 @@ func (mk *mapKey) LocateScanTarget(typeToValue TypeToValue) (any, *ScanProxy, er
 		return nil, nil, valueNotFoundError(typeToValue, mk.mapType)
 	}
 	scanVal := reflect.New(mk.mapType.Elem()).Elem()
-	return scanVal.Addr().Interface(), &ScanProxy{original: m, scan: scanVal, key: reflect.ValueOf(mk.name)}, nil
+	return scanVal.Addr().Interface(), &ScanProxy{original: m, scan: scanVal, key: mk.key()}, nil
+}
+
+// key returns the key as a value of the key type of the map. The key type has
+// kind string but it can be a named type.
+func (mk *mapKey) key() reflect.Value {
+	return reflect.ValueOf(mk.name).Convert(mk.mapType.Key())
 }
 
 // structField represents reflection information about a field of a particular
